@@ -65,7 +65,14 @@ def applyStore (c : CStore) (acc : Acc) : List Action → CStore × Acc
 
 def stepFuel : Nat := 1000000
 
-def runEnter (script : List (Nat × List Action)) : Nat → Nat → CStore → Enter.St → Acc → CStore × Acc × String
+/-- the `send`s of one yield as the walk generator receives them: directly, or through `search(nested=…)` -/
+def sendsOf (nested : Option Bool) (acts : List Action) : List Bool :=
+  let ss := acts.filterMap (fun a => match a with | .send b => some b | _ => none)
+  match nested with
+  | some n => Search.forwarded n ss
+  | none => ss
+
+def runEnter (nested : Option Bool) (script : List (Nat × List Action)) : Nat → Nat → CStore → Enter.St → Acc → CStore × Acc × String
   | 0, _, c, _, acc => (c, acc, "cap")
   | cap + 1, k, c, s, acc =>
     match Enter.next c.store stepFuel s with
@@ -74,10 +81,10 @@ def runEnter (script : List (Nat × List Action)) : Nat → Nat → CStore → E
       let acc := { acc with yields := (φ, c.store.a φ, false) :: acc.yields }
       let acts := actionsAt script k
       let (c', acc) := applyStore c acc acts
-      let s'' := acts.foldl (fun s a => match a with | .send b => Enter.send b s | _ => s) s'
-      runEnter script cap (k + 1) c' s'' acc
+      let s'' := (sendsOf nested acts).foldl (fun s b => Enter.send b s) s'
+      runEnter nested script cap (k + 1) c' s'' acc
 
-def runLB (script : List (Nat × List Action)) : Nat → Nat → CStore → LB.St → Acc → CStore × Acc × String
+def runLB (nested : Option Bool) (script : List (Nat × List Action)) : Nat → Nat → CStore → LB.St → Acc → CStore × Acc × String
   | 0, _, c, _, acc => (c, acc, "cap")
   | cap + 1, k, c, s, acc =>
     match LB.next c.store stepFuel s with
@@ -86,8 +93,8 @@ def runLB (script : List (Nat × List Action)) : Nat → Nat → CStore → LB.S
       let acc := { acc with yields := (φ, c.store.a φ, lv) :: acc.yields }
       let acts := actionsAt script k
       let (c', acc) := applyStore c acc acts
-      let s'' := acts.foldl (fun s a => match a with | .send b => LB.send b s | _ => s) s'
-      runLB script cap (k + 1) c' s'' acc
+      let s'' := (sendsOf nested acts).foldl (fun s b => LB.send b s) s'
+      runLB nested script cap (k + 1) c' s'' acc
 
 def dispatch (f : String) (j : Json) : Option Json :=
   match f with
@@ -101,11 +108,12 @@ def dispatch (f : String) (j : Json) : Option Json :=
       let recurse := (getBool j "recurse").getD true
       let back := (getBool j "back").getD false
       let cap := (getNat j "cap").getD 100000
+      let nested := getBool j "nested"
       let c : CStore := { tree := t, next := nxt }
       let acc0 : Acc := { mutok := c.wfB }
       let (c', acc, e) :=
-        if on == "enter" then runEnter script cap 0 c (Enter.init root self recurse back) acc0
-        else runLB script cap 0 c (LB.init (on == "leave") root self recurse back) acc0
+        if on == "enter" then runEnter nested script cap 0 c (Enter.init root self recurse back) acc0
+        else runLB nested script cap 0 c (LB.init (on == "leave") root self recurse back) acc0
       return Json.mkObj [
         ("yields", Json.arr (acc.yields.reverse.map (fun (φ, x, lv) =>
           Json.arr #[ofNat φ, ofOpt ofNat x, Json.bool lv])).toArray),
